@@ -60,6 +60,10 @@ def ann_object(kind, i):
         return Shaped[np.ndarray, f"ax{i}"]
     if kind == "obj":
         return Obj
+    if kind == "iterator":
+        import collections.abc
+
+        return collections.abc.Iterator[int]  # (typeguard wraps a returned generator in a checking proxy if it is left to handle it)
     return None
 
 
